@@ -211,6 +211,8 @@ def gen_images(ctx):
     pays2 = [U, 2 * U] if ctx.thorough else [U]
     eszs2 = [0, U, 2 * U, 3 * U] if ctx.thorough else [0, U, 2 * U]
     for kf in ([0, 1], [0, 0]):
+        if kf == [0, 0]:                                    # colliding keys: the smaller field domain in both tiers
+            pays2, eszs2 = [U], [0, U, 2 * U]
         v0 = slot_values(2, 0, (1, 2), pays2, eszs2)
         v1 = slot_values(2, 1, (1, 2), pays2, eszs2)
         for a in v0:
@@ -239,10 +241,10 @@ def gen_images(ctx):
                         v['bad'] = rnd.choice('zg')
                     img.append(v)
             im.add(n, kf, img, tag)
-    sample(3, 30000 if ctx.thorough else 5000, 2, 's3')
-    sample(4, 10000 if ctx.thorough else 1500, 2, 's4')
-    sample(4, 4000 if ctx.thorough else 500, 3, 's4k3')
-    sample(6, 2000 if ctx.thorough else 300, 3, 's6k3')
+    sample(3, 16000 if ctx.thorough else 5000, 2, 's3')
+    sample(4, 6000 if ctx.thorough else 1500, 2, 's4')
+    sample(4, 3000 if ctx.thorough else 500, 3, 's4k3')
+    sample(6, 1500 if ctx.thorough else 300, 3, 's6k3')
     # --- the MC quick space through the real code (thorough): N=3, two keys in different anchors, pay 1, esz in {0, 2} ----
     if ctx.thorough:
         vs = [slot_values(3, s, (1, 2), [U], [0, 2 * U], bad_meta=False) for s in range(3)]
@@ -412,10 +414,10 @@ def stored_image_cases(ctx, exe, fix):
         for f, v in cand:
             fields.append('set:%d:%s:%d' % (s, f, v))
     rnd.shuffle(fields)
-    single = fields if ctx.thorough else fields[:24]
+    single = fields[:110] if ctx.thorough else fields[:24]
     for m in single:
         specs.append((nw, 0, [m]))
-    for _ in range(200 if ctx.thorough else 12):                   # two or three simultaneous mutations
+    for _ in range(60 if ctx.thorough else 12):                   # two or three simultaneous mutations
         specs.append((nw, 0, rnd.sample(fields, rnd.choice([2, 2, 3]))))
     recs = run_restarts(ctx, exe, wd, 'c57', specs, 5)
     cases, descr = [], []
@@ -504,6 +506,9 @@ def report_known(ctx, known_path, props, what, witness):
     coordinator moves the entry to /verif/known_findings.json, which ctx.violation consults itself), else VIOLATION."""
     cls = witness.get('class', {})
     entries = json.load(open(known_path)).get('open', []) if os.path.exists(known_path) else []
+    # the global list too, under every id this check runs as (bin/check C16 calls C16u.run_unit with ctx.prop = 'C16';
+    # bin/check C16u runs the same code with ctx.prop = 'C16u'; ctx.violation itself only looks at ctx.prop)
+    entries = entries + [k for k in vlib.known_findings().get('open', []) if k.get('property') != ctx.prop]
     for k in entries:
         m = k.get('match', {})
         if k.get('property') in props and m and all(cls.get(a) == b for a, b in m.items()):
@@ -578,10 +583,12 @@ def model_check(ctx):
     if os.environ.get('VERIF_C57_SKIP_MC'):        # mutant runs: the design step does not depend on the tree
         ctx.notes.append('model checking of the specification skipped (VERIF_C57_SKIP_MC)')
         return
-    runs = [('MC_RockRebuild_q.cfg', 900), ('MC_RockRebuild_q_fixed.cfg', 900)]
+    # *_cur: the machine as the tree is now (anchored + size checks of e2d5c44/204d147, no leftovers check): C57 up to the
+    # foreign-slot shape (F6c); *_fixed: with the leftovers check + undo as well: strict C57; *_old (thorough): before the repairs
+    runs = [('MC_RockRebuild_q_cur.cfg', 900), ('MC_RockRebuild_q_fixed.cfg', 900)]
     if ctx.thorough:
-        runs += [('MC_RockRebuild_t.cfg', 3000), ('MC_RockRebuild_t_fixed.cfg', 3000),
-                 ('MC_RockRebuild_c.cfg', 3000), ('MC_RockRebuild_c_fixed.cfg', 3000), ('MC_RockRebuild_a_fixed.cfg', 3000)]
+        runs += [('MC_RockRebuild_t_cur.cfg', 3000), ('MC_RockRebuild_t_fixed.cfg', 3000),
+                 ('MC_RockRebuild_c_cur.cfg', 3000), ('MC_RockRebuild_c_fixed.cfg', 3000), ('MC_RockRebuild_q_old.cfg', 3000)]
     for cfg, to in runs:
         res = vlib.tlc_must_pass(ctx, mod, os.path.join(SPEC, cfg), timeout=to, args=['-noGenerateSpecTE'])
         ctx.log('TLC %s: %d states, depth %d, %.0fs' % (cfg, res.distinct, res.depth, res.wall))
@@ -596,7 +603,7 @@ def run(ctx):
     items = gen_images(ctx)
     lines = [case_line(i, n, kf, img) for i, (n, kf, img, tag) in enumerate(items)]
     ctx.log('%d images' % len(items))
-    outs = run_driver_cases(ctx, exe, lines, 'img')
+    outs = run_driver_cases(ctx, exe, lines, 'img', procs=(max(2, min(12, vlib.NCPU - 4)) if ctx.thorough else None))
     skipped = [i for i, o in enumerate(outs) if o.get('skipped')]
     if skipped:
         ctx.cov['images_skipped_after_repeated_crashes'] = len(skipped)
